@@ -93,24 +93,28 @@ def run(tier):
     cbuild.repo_only()
     parts = {}
     timer = Timer()
-    # ---- background: the exhaustive tables and the two model-checking runs ------------------------------
-    th_tab, box_tab = _threaded(_tables, parts, wd, 9 if quick else 10, 7)
-    th_mc1, box_mc1 = _threaded(_mc, parts, 'rle_mc', 'Z80RleEnc', 'Z80Rle_mc.cfg', False)
-    th_mc2, box_mc2 = _threaded(_mc, parts, 'ops_mc', 'SnapOpsMC', 'SnapOps_mc.cfg', True)
-
-    # ---- drive the real code ---------------------------------------------------------------------------
-    rng = random.Random(sd)
-    ljobs = snapdrv.long_jobs(wd, rng, 16 if quick else 400)
-    fjobs = snapdrv.file_jobs(wd, sd, 14 if quick else 300, 1 if quick else 6)
-    ntr, nsteps = (72, 9) if quick else (1500, 14)
-    tjobs = [(wd, n, sd * 7919 + n, nsteps) for n in range(ntr)]
-    with mp.get_context('fork').Pool(16) as pool:
+    # the worker pool is forked BEFORE any thread exists (forking a multi-threaded process can deadlock)
+    pool = mp.get_context('fork').Pool(16)
+    try:
+        # ---- background: the exhaustive tables and the two model-checking runs --------------------------
+        th_tab, box_tab = _threaded(_tables, parts, wd, 9 if quick else 10, 7)
+        th_mc1, box_mc1 = _threaded(_mc, parts, 'rle_mc', 'Z80RleEnc', 'Z80Rle_mc.cfg', False)
+        th_mc2, box_mc2 = _threaded(_mc, parts, 'ops_mc', 'SnapOpsMC', 'SnapOps_mc.cfg', True)
+        # ---- drive the real code -----------------------------------------------------------------------
+        rng = random.Random(sd)
+        ljobs = snapdrv.long_jobs(wd, rng, 16 if quick else 400)
+        fjobs = snapdrv.file_jobs(wd, sd, 14 if quick else 300, 1 if quick else 6)
+        ntr, nsteps = (72, 9) if quick else (1500, 14)
+        tjobs = [(wd, n, sd * 7919 + n, nsteps) for n in range(ntr)]
         a1 = pool.map_async(snapdrv.long_file_worker, ljobs, chunksize=2)
         a2 = pool.map_async(snapdrv.file_case_worker, fjobs, chunksize=2)
         a3 = pool.map_async(snapdrv.trace_worker, tjobs, chunksize=1)
         lcases = [c for p in a1.get() for c in p]
         fcases = a2.get()
         traces = a3.get()
+    finally:
+        pool.terminate()
+        pool.join()
     for i, (route, machine) in enumerate([(r, m) for r in ('ws', 'b2s') for m in ('48K', '128K')]):
         fcases.append(snapdrv.defaults_case(wd, 9000 + i, route, machine))
     log('C09: drove %d long blocks, %d file cases, %d option traces (%d invocations) in %.1fs'
